@@ -8,7 +8,7 @@ from .absint import (ren_rat, AV, BoolV, GroupV, IntParam, LevelV, NotImpl, NumV
                      Unsupported)
 from .algebra import describe, path_alternatives
 from .calls import Resolver
-from .core import AnalysisError, Report
+from .core import AnalysisError, Report, rel
 from .e4util import Run, default_arg_sets, quant_atom, run_function
 from .model import Program
 from .poly import Lin, Poly, Rat
@@ -21,6 +21,22 @@ OPS = {
     "Quantity.__truediv__": "div", "Quantity.__rtruediv__": "rdiv", "Quantity.__pow__": "pow",
     "Quantity.root": "root", "Quantity.__neg__": "neg", "Quantity.__pos__": "pos", "Quantity.__abs__": "abs",
 }
+
+
+# every other arithmetic hook the data model knows: an operator the class grows later is decided by its
+# family (R03.8) - additive ones need the right operand itself gated into the left one's unit
+_ARITH = ("add", "sub", "mul", "truediv", "floordiv", "mod", "divmod", "pow", "matmul", "and", "or", "xor", "lshift", "rshift")
+ARITH_HOOKS = {f"__{p}{n}__" for n in _ARITH for p in ("", "r", "i")} | {
+    "__neg__", "__pos__", "__abs__", "__invert__", "__round__", "__floor__", "__ceil__", "__trunc__"}
+# hook -> family: "additive" (result in the left operand's dimension, right operand gated), "quotient", "same"
+EXTRA_FAMILY = {
+    "__mod__": "additive", "__imod__": "additive", "__iadd__": "additive", "__isub__": "additive",
+    "__radd__": "additive", "__rsub__": "additive", "__rmod__": "additive",
+    "__floordiv__": "quotient", "__ifloordiv__": "quotient", "__itruediv__": "quotient",
+    "__imul__": "product", "__divmod__": "divmod",
+    "__round__": "same", "__floor__": "same", "__ceil__": "same", "__trunc__": "same",
+}
+COMMUTATIVE = {"add", "mul"}
 
 
 def val(v: AV) -> Optional[Rat]:
@@ -143,6 +159,93 @@ def check_operators(rep: Report, prog: Program, resolver: Resolver, rid_value: s
                     rep.check(rid_left, key + ":homogeneous", bool(adds) and all(e.data["homogeneous"] for e in adds),
                               "magnitudes expressed in different units are added", fi.where(o.node))
     return n_ret
+
+
+def _gated(run: Run, o: Outcome, me: QuantV, other: QuantV) -> bool:
+    """the right operand itself was taken through the dimension gate (converted into the left operand's unit,
+    or the other way round), or the path tests the two dimensions against each other"""
+    for e in run.events:
+        if e.kind != "in_unit" or getattr(e, "plan", None) not in (None, getattr(o, "plan", None)):
+            continue
+        q, u = e.data["q"], e.data["unit"]
+        if isinstance(q, QuantV) and isinstance(u, UnitV):
+            if q.unit.same(other.unit) and u.d.mono == me.unit.d.mono:
+                return True
+            if q.unit.same(me.unit) and u.d.mono == other.unit.d.mono:
+                return True
+    return any("dimension" in t for t, _ in o.path)
+
+
+def check_extra_operators(rep: Report, prog: Program, resolver: Resolver, rid: str) -> int:
+    """R03.8: every arithmetic hook of Quantity beyond the specified ones follows its family's dimensional rule."""
+    ci = next((c for c in prog.classes.values() if c.name == "Quantity" and c.module == ""), None)
+    if ci is None:
+        raise AnalysisError("class Quantity not found")
+    n = 0
+    for attr, rhs in sorted(ci.aliases.items()):
+        if attr not in ARITH_HOOKS:
+            continue
+        n += 1
+        base = attr[3:-2] if attr.startswith("__r") else None
+        tgt = rhs.id if isinstance(rhs, ast.Name) else ast.unparse(rhs)
+        ok = base in COMMUTATIVE and tgt == f"__{base}__"
+        rep.check(rid, f"Quantity.{attr} = {tgt}", ok,
+                  f"Quantity.{attr} is an alias of {tgt}: only the reflected form of a commutative operator may share "
+                  "the implementation of the direct one", rel(ci.path) + f":{rhs.lineno}")
+    for attr, qual in sorted(ci.methods.items()):
+        if attr not in ARITH_HOOKS or qual in OPS:
+            continue
+        n += 1
+        fi = prog.func(qual)
+        fam = EXTRA_FAMILY.get(attr)
+        if fam is None:
+            raise AnalysisError(f"{qual}: no dimensional specification for this operator (R03.8 knows the additive, "
+                                "quotient, product and rounding families)")
+        for args in default_arg_sets(prog, resolver, qual, "unit"):
+            me = args["self"]
+            others = [v for k, v in args.items() if k != "self"]
+            other = others[0] if others else None
+            try:
+                run = run_function(prog, resolver, qual, LAYERS, args)
+            except Unsupported as e:
+                raise AnalysisError(f"{qual}: {e}")
+            arm = type(other).__name__ if other is not None else ""
+            for o in run.outcomes:
+                if o.kind != "return" or isinstance(o.value, NotImpl):
+                    continue
+                key = f"{qual}[{arm}]" + ("|" + "&".join(("" if v else "not ") + t for t, v in o.path) if o.path else "")
+                parts: List[Tuple[str, AV]] = [(fam, o.value)]
+                if fam == "divmod":
+                    from .absint import TupleV
+                    if not isinstance(o.value, TupleV) or len(o.value.items) != 2:
+                        rep.fail(rid, key, f"{qual} returns {describe(o.value)}, expected (quotient, remainder)", fi.where(o.node))
+                        continue
+                    parts = [("quotient", o.value.items[0]), ("additive", o.value.items[1])]
+                for f_, got in parts:
+                    k2 = key + (f":{f_}" if fam == "divmod" else "")
+                    if not isinstance(got, QuantV):
+                        rep.fail(rid, k2, f"{qual} returns {describe(got)} ({getattr(got, 'why', '')}): an operator on quantities "
+                                 "returns a Quantity or NotImplemented", fi.where(o.node))
+                        continue
+                    do = dim_of(other) if other is not None else None
+                    if f_ in ("additive", "same"):
+                        want = me.unit.d
+                    elif f_ == "quotient" and do is not None:
+                        want = me.unit.d.mul(do, -1)
+                    elif f_ == "product" and do is not None:
+                        want = me.unit.d.mul(do)
+                    else:
+                        raise AnalysisError(f"{qual}[{arm}]: no specification for this operand kind")
+                    ok = got.unit.d.mono == want.mono
+                    why = f"dimension component of the result is {got.unit.d.mono}, expected {want.mono}"
+                    if ok and f_ == "additive" and isinstance(other, QuantV):
+                        ok = _gated(run, o, me, other)
+                        why = (f"{qual} combines the two operands additively without taking the right operand through the "
+                               "dimension gate: no conversion of `other` itself into the left operand's unit (and no test of "
+                               "the two dimensions) precedes this return, so incommensurable operands yield a quantity "
+                               "instead of raising")
+                    rep.check(rid, k2, ok, why, fi.where(o.node))
+    return n
 
 
 def comparison_runs(prog: Program, resolver: Resolver, qual: str) -> List[Tuple[str, Run, QuantV, AV]]:
